@@ -295,9 +295,16 @@ fn cli_family(run: &Run, n: usize) {
         }
         let root = cli::fresh_dir(&w.scratch, &format!("c{k}"));
         let tree = root.join("tree");
-        cli::write_tree(&tree, &[("c1/src/lib.rs".into(), format!("{}\n#[typeshare]\npub struct AlwaysThere {{ pub x: u8 }}\n", if c.level == Level::File { String::new() } else { node_src(0, c.level, &c.attrs) }).into_bytes()), ("c1/src/guarded_file.rs".into(), if c.level == Level::File { node_src(0, c.level, &c.attrs).into_bytes() } else { b"// nothing\n".to_vec() })]);
-        let out = root.join("out.ts");
-        let args: Vec<String> = vec!["--lang".into(), "typescript".into(), "-o".into(), out.to_string_lossy().into_owned(), tree.to_string_lossy().into_owned(), "--target-os".into(), c.targets.join(",")];
+        // an inline module carrying the same cfg attributes: the statement lists files, types, variants and fields as
+        // guardable; an annotated item inside such a module has no target_os predicate of its own and is always kept
+        let cfg_mod = format!("{}pub mod cfg_mod {{\n    #[typeshare]\n    pub struct InsideCfgMod {{ pub y: u8 }}\n}}\n", attrs_src(&c.attrs, false));
+        cli::write_tree(&tree, &[("c1/src/lib.rs".into(), format!("{}\n#[typeshare]\npub struct AlwaysThere {{ pub x: u8 }}\n{}", if c.level == Level::File { String::new() } else { node_src(0, c.level, &c.attrs) }, cfg_mod).into_bytes()), ("c1/src/guarded_file.rs".into(), if c.level == Level::File { node_src(0, c.level, &c.attrs).into_bytes() } else { b"// nothing\n".to_vec() })]);
+        let folder = k % 2 == 1;
+        let out = if folder { root.join("outdir").join("c1.ts") } else { root.join("out.ts") };
+        if folder {
+            std::fs::create_dir_all(root.join("outdir")).unwrap();
+        }
+        let args: Vec<String> = vec!["--lang".into(), "typescript".into(), if folder { "-d".into() } else { "-o".into() }, if folder { root.join("outdir").to_string_lossy().into_owned() } else { out.to_string_lossy().into_owned() }, tree.to_string_lossy().into_owned(), "--target-os".into(), c.targets.join(",")];
         // clap: `--target-os a,b` is one value; the CLI splits nothing itself, so pass one flag per value
         let mut args2: Vec<String> = args[..5].to_vec();
         args2.push("--target-os".into());
@@ -317,7 +324,15 @@ fn cli_family(run: &Run, n: usize) {
             Level::Variant => text.contains("Guarded"),
             Level::Field | Level::VariantField => text.contains("guarded"),
         };
-        run.label("cli/compared");
+        run.label(if folder { "cli/compared/folder-mode" } else { "cli/compared/single-file" });
+        for always in ["AlwaysThere", "InsideCfgMod"] {
+            if !text.contains(always) {
+                let v = Violation::new(format!("cli/{}/item-without-predicate-dropped/{}", if folder { "folder" } else { "single" }, always), format!("`{always}` carries no target_os predicate of its own but is missing from the output (targets {:?}, mode {})", c.targets, if folder { "folder" } else { "single file" }));
+                for v in run.triage(vec![v], true) {
+                    run.record_violation("c13-sampled", &v, serde_json::to_value(c).unwrap(), json!({"source": format!("{}{}", node_src(0, c.level, &c.attrs), cfg_mod), "targets": c.targets, "args": args2}));
+                }
+            }
+        }
         if let Some(v) = judge(&c.attrs, c.level, &c.targets, Some(got)) {
             let v = Violation::new(format!("cli/{}", v.sig), v.detail);
             for v in run.triage(vec![v], true) {
